@@ -1,10 +1,12 @@
 import SaModel.Lemmas.C06Field
 import SaModel.Lemmas.C07TLift
+import SaModel.Lemmas.C06TupleNames
 /-
 C06, closure, tracer ⇒ documented mapping: the statement proved by induction over nested samples.
 
-`PI o ext x`: absorb `x` into a reachable tracer `t` (invariant `C07.WF`: leaf states of the alphabet, struct fields with
-distinct names named after their keys, counters below `seen_samples`), let the tracer absorb ANY further samples
+`PI o ext x`: absorb `x` into a reachable tracer `t` (invariant `Inv` = `C07.WF`: leaf states of the alphabet, struct
+fields with distinct names named after their keys, counters below `seen_samples`; and `TN`: tuple positions named after
+their index), let the tracer absorb ANY further samples
 (`Steps`), turn the result into a field (`to_field`, no overwrites): then the documented mapping `Spec.interpDT` of `x`
 at that field is defined, unless `x` is ill-formed as a serde value (`sampleOK`) or one of the exclusions holds at some
 position (`hits (exclAny ext)`).  Repaired code (`Code.fixed`) only: the pinned code is defective (finding #25).
@@ -47,6 +49,24 @@ theorem steps_wf7 {o : Options} {t t2 : Tracer} (hw : C07.WF o t) (h : Steps .fi
 
 theorem wf7_new (o : Options) (n p : String) : C07.WF o (Tracer.new n p) := by simp [Tracer.new, C07.WF]
 
+/-- the reachable-state invariant used below: `C07.WF` (leaf alphabet, struct field names distinct and equal to the
+child tracer's name, counters) and `TN` (the tracer at tuple position `i` is named `toString i`) -/
+def Inv (o : Options) (t : Tracer) : Prop := C07.WF o t ∧ TN t
+
+theorem Inv.wf {o : Options} {t : Tracer} (h : Inv o t) : WF o t := wf7_wf o t h.1
+
+theorem Inv_new (o : Options) (n p : String) : Inv o (Tracer.new n p) := ⟨wf7_new o n p, TN_new n p⟩
+
+theorem absorb_inv (o : Options) {x : SVal} {t t' : Tracer} (hw : Inv o t) (h : absorb .fixed o t x = .ok t') :
+    Inv o t' := ⟨absorb_wf7 o hw.1 h, absorb_tn' o x t t' hw.2 h⟩
+
+theorem steps_inv {o : Options} {t t2 : Tracer} (hw : Inv o t) (h : Steps .fixed o t t2) : Inv o t2 := by
+  obtain ⟨ys, h'⟩ := h
+  exact ⟨steps_wf7 hw.1 ⟨ys, h'⟩, absorbAll_tn' o ys hw.2 h'⟩
+
+theorem Inv_mark {o : Options} {t : Tracer} (h : Inv o t) : Inv o t.mark_nullable :=
+  ⟨C07.WF_mark h.1, TN_mark_nullable h.2⟩
+
 /-- the documented mapping of `x` at the field is defined -/
 def IOk (ext : Ext) (f : Field) (x : SVal) : Prop :=
   ∃ lv, interpDT ext f.dataType f.nullable f.metadata x = .ok lv
@@ -58,7 +78,7 @@ def Maps (o : Options) (ext : Ext) (t : Tracer) (x : SVal) : Prop :=
 
 /-- absorbing `x` into a reachable tracer gives a tracer from which the mapping of `x` stays defined -/
 def PI (o : Options) (ext : Ext) (x : SVal) : Prop :=
-  ∀ t t', C07.WF o t → absorb .fixed o t x = .ok t' → Maps o ext t' x
+  ∀ t t', Inv o t → absorb .fixed o t x = .ok t' → Maps o ext t' x
 
 theorem Maps.steps {o : Options} {ext : Ext} {t t' : Tracer} {x : SVal} (h : Maps o ext t x)
     (hs : Steps .fixed o t t') : Maps o ext t' x :=
@@ -77,7 +97,7 @@ theorem PI_none (o : Options) (ext : Ext) (h0 : o.overwrites = []) : PI o ext .n
 theorem PI_some (o : Options) (ext : Ext) (v : SVal) (ih : PI o ext v) : PI o ext (.some v) := by
   intro t t' hw h t2 hs f hf hok hex
   rw [absorb_some] at h
-  have := ih _ _ (C07.WF_mark hw) h t2 hs f hf (by simpa [sampleOK] using hok) (by simpa [hits] using hex)
+  have := ih _ _ (Inv_mark hw) h t2 hs f hf (by simpa [sampleOK] using hok) (by simpa [hits] using hex)
   obtain ⟨lv, hlv⟩ := this
   exact ⟨lv, by rw [interpDT]; exact hlv⟩
 
@@ -90,7 +110,7 @@ theorem PI_newtypeStruct (o : Options) (ext : Ext) (n : String) (v : SVal) (ih :
 
 /-! ### sample lists absorbed one after the other into one tracer -/
 
-theorem absorbAll_PI (o : Options) (ext : Ext) : ∀ vs : List SVal, (∀ v ∈ vs, PI o ext v) → ∀ t t', C07.WF o t →
+theorem absorbAll_PI (o : Options) (ext : Ext) : ∀ vs : List SVal, (∀ v ∈ vs, PI o ext v) → ∀ t t', Inv o t →
     absorbAll .fixed o t vs = .ok t' → ∀ v ∈ vs, Maps o ext t' v
   | [], _, _, _, _, _ => by simp
   | y :: ys, hp, t, t', hw, h => by
@@ -102,6 +122,6 @@ theorem absorbAll_PI (o : Options) (ext : Ext) : ∀ vs : List SVal, (∀ v ∈ 
       intro v hv
       rcases List.mem_cons.mp hv with rfl | hv
       · exact (hp v (by simp) t t1 hw ha).steps ⟨ys, h⟩
-      · exact absorbAll_PI o ext ys (fun x hx => hp x (by simp [hx])) t1 t' (absorb_wf7 o hw ha) h v hv
+      · exact absorbAll_PI o ext ys (fun x hx => hp x (by simp [hx])) t1 t' (absorb_inv o hw ha) h v hv
 
 end SaModel.Lemmas.C06
